@@ -9,7 +9,9 @@ type JSONFormatter struct {
 	Writer io.Writer
 }
 
-func (f *JSONFormatter) Write(result interface{}) error {
+func (f *JSONFormatter) Write(result interface{}) (err error) {
+	defer recoverWriteError(&err)
+
 	data, err := json.Marshal(result)
 	if err != nil {
 		return err
